@@ -1,9 +1,9 @@
 CONSTANTS HW = 7
-          Margins = {1, 2, 3, 4, 5, 6}
+          Margins = {1, 2, 3, 4}
           Anchors = {1, 2, 3}
           NMax = 6
           MCMod = 84
-          GenMod = 336
+          GenMod = 84
           TPad = 2
 INIT Init
 NEXT EvalGen
